@@ -51,6 +51,8 @@ pub fn run(a: &Args, rep: &mut Report) {
         "C08" => crate::p_dim::c08(a, rep),
         "C16" => crate::p_nn::c16(a, rep),
         "C17" => crate::p_nn::c17(a, rep),
+        "C15" => crate::p_poly::c15(a, rep),
+        "C18" => crate::p_poly::c18(a, rep),
         "C19" => crate::p_geo::c19(a, rep),
         "C20" => crate::p_geo::c20(a, rep),
         "C10" => crate::p_pred::c10(a, rep),
@@ -153,6 +155,8 @@ pub fn run_one(id: &str, c: &Case, rep: &mut Report) {
         "C08" => crate::p_dim::one_c08(id, c, rep),
         "C16" => crate::p_nn::one_c16(id, c, rep),
         "C17" => crate::p_nn::one_c17(id, c, rep),
+        "C15" => crate::p_poly::one_c15(id, c, rep),
+        "C18" => crate::p_poly::one_c18(id, c, rep),
         "C05" => crate::p_total::one_c05(id, c, rep),
         "C11" => {
             // a tessellation on which two back ends differed: this build's digest and exact decisions
